@@ -19,7 +19,9 @@
 package didjwk
 
 import (
+	"crypto/ecdsa"
 	"encoding/base64"
+	"errors"
 	"fmt"
 	"github.com/nuts-foundation/nuts-node/vdr/resolver"
 	"reflect"
@@ -78,6 +80,11 @@ func (w Resolver) Resolve(id did.DID, _ *resolver.ResolveMetadata) (*did.Documen
 	publicRawKey, err := jwk.PublicRawKeyOf(key)
 	if err != nil {
 		return nil, nil, fmt.Errorf("failed to get PublicRawKeyOf(key): %w", err)
+	}
+	// The JWK is only parsed, not validated: an EC key must be a point on its curve
+	// (the JWK library panics when asked to encode coordinates that do not fit the curve).
+	if ecKey, ok := publicRawKey.(*ecdsa.PublicKey); ok && !ecKey.Curve.IsOnCurve(ecKey.X, ecKey.Y) {
+		return nil, nil, errors.New("invalid EC public key: point is not on the curve")
 	}
 
 	// Create a new DID verification method.
